@@ -9,7 +9,7 @@ READER_WF = [
     "forall(lambda k: implies(0 <= k <= len({r}.lines), {r}.idx[{r}.offs[k]] == k))",
     "forall(lambda k: implies(0 <= k < len({r}.lines), {r}.lines[k] != ''))",
 ]
-FRAME = "self.lines == old(self).lines and self.offs == old(self).offs and self.idx == old(self).idx"
+FRAME = "same(self.lines, old(self).lines) and self.offs == old(self).offs and self.idx == old(self).idx"
 
 
 def reader_wf(r):
